@@ -76,6 +76,9 @@ fn run(out: &mut impl Write, s: &str, rng: &mut Rng) {
         let a = rng.below(n as u64 + 1) as usize;
         let b = a + rng.below((n - a) as u64 + 1) as usize;
         ops.push(format!("slice:{}:{}:{}", a, b, hex_cps(&content_of(v.slice(a..b)).1)));
+        // the attributes of a slice agree with its content: also for the empty slice of a string held in the code-point form
+        ops.push(format!("sliceattr:{}:{}:{}:{}", a, b, v.slice(a..b).len(), v.slice(a..b).is_empty() as u8));
+        ops.push(format!("sliceattr:{}:{}:{}:{}", a, a, owned.slice(a..a).len(), owned.slice(a..a).is_empty() as u8));
         ops.push(format!("sliceu32:{}:{}:{}", a, b, hex_cps(&content_of(owned.slice_u32(a as u32..b as u32)).1)));
         if b > a {
             ops.push(format!("sliceincl:{}:{}:{}", a, b - 1, hex_cps(&content_of(owned.slice(a..=b - 1)).1)));
